@@ -136,9 +136,8 @@ fn k_eslice_split() {
     }
 }
 
-/// EXPECTED-FAIL on the pinned tree (finding reproduced by native/src/bin/f_relocate_1.rs): `empty()` is
-/// `self.slice = &[]`, which drops the position, so a later `offset_from(section)` trips
-/// `debug_assert!(base_ptr <= ptr)` / returns garbage.  The Reader contract (EndianReader: `truncate(0)`) keeps it.
+/// `empty()` keeps the position: the emptied reader is the window [s, s) of the section (regression harness for the
+/// fixed finding `EndianSlice::empty` = `self.slice = &[]`, native/src/bin/f_relocate_1.rs; contract `trunc(O, F, 0)`)
 #[kani::proof]
 #[kani::unwind(4)]
 fn k_eslice_empty_position() {
@@ -147,13 +146,15 @@ fn k_eslice_empty_position() {
     let (s, n) = any_window(L);
     let mut r = base.range(s..s + n);
     r.empty();
-    assert!(r.len() == 0 && r.is_empty());
-    // still inside the section (position anywhere in [s, s+n], the contract of a parser frame)
-    let off = Reader::offset_from(&r, &base);
-    assert!(s <= off && off <= s + n);
+    at(&r, &base, s, 0);
+    // and errors raised on the emptied reader name that position
+    match r.read_u8() {
+        Err(e) => assert!(eof_at(e, &base, s)),
+        Ok(_) => assert!(false),
+    }
 }
 
-/// the part of `empty()` that holds today: length zero, endianity kept, reads fail without panicking
+/// after `empty()`: length zero, endianity kept, every read fails without panicking, zero-length operations succeed
 #[kani::proof]
 #[kani::unwind(4)]
 fn k_eslice_after_empty() {
@@ -369,6 +370,20 @@ fn k_eslice_offset_id_roundtrip() {
     } else {
         assert!(got.is_none());
     }
+    // an id taken at EVERY position p in 0..=n of the window -- including exactly its end (p == n) and the end of
+    // the section (s + p == L) -- maps back to p through the window and to s + p through the section
+    let p: usize = kani::any();
+    kani::assume(p <= n);
+    let idp = r.range_from(p..).offset_id();
+    assert!(r.lookup_offset_id(idp) == Some(p));
+    assert!(base.lookup_offset_id(idp) == Some(s + p));
+    let end_id = r.range_from(n..).offset_id();
+    assert!(r.lookup_offset_id(end_id) == Some(n));
+    assert!(base.lookup_offset_id(base.range_from(L..).offset_id()) == Some(L));
+    // the same id is reached by consuming the window
+    let mut q = r;
+    q.skip(p).unwrap();
+    assert!(q.offset_id() == idp);
     // the id does not depend on the window length, a clone has the same id
     assert!(base.range(s..L).offset_id() == id);
     let c = r;
